@@ -104,7 +104,7 @@ def requires_hold(ctx, Dz, s, requires):
                     if ok:
                         break
                 # a call inside the closures created before the site also counts for checked_* helpers
-                if not ok and val in ('checked_mul', 'VerifiableHeaderPatch>::checked_total_difficulty'):
+                if not ok and val in ('checked_mul', 'VerifiableHeaderPatch>::checked_total_difficulty', '<u64 as From>::from'):
                     for cl in P.closures_of(b):
                         if any(k.endswith(val) or val in k for _, k, _ in P.call_keys(cl)):
                             ok = True
